@@ -444,7 +444,7 @@ pub fn corpus() -> Vec<(u64, Vec<IOp>)> {
 }
 
 /// runs one case, compares with the model, records failures; returns true when something failed
-pub fn check_case(rt: &tokio::runtime::Runtime, model: &mut Model, report: &mut Report, origin: &str, max: u64, ops: &[IOp], sample: bool) {
+pub fn check_case(rt: &tokio::runtime::Runtime, model: &mut Model, report: &mut Report, limits: &mut super::Limits, origin: &str, max: u64, ops: &[IOp], sample: bool) {
     let key = enc_iops(max, ops);
     report.case(Some(&key));
     report.bump(&format!("origin.{}", origin));
@@ -456,8 +456,12 @@ pub fn check_case(rt: &tokio::runtime::Runtime, model: &mut Model, report: &mut 
     if sample {
         report.sample(serde_json::json!({"ingester_history": key, "impl": impl_out, "model": model_out}));
     }
-    if !model.is_null() && impl_out != model_out {
-        let shrunk = csv_common::ddmin(ops, &mut |cand: &[IOp]| {
+    let differs = !model.is_null() && impl_out != model_out;
+    if differs {
+        // every executed step yields three tokens (result, segment files, flushed mark)
+        let cut_tok = super::first_diff(&impl_out, &model_out);
+        let prefix = prefix_for_token(ops, cut_tok);
+        let shrunk = limits.shrink(ops, prefix, &mut |cand: &[IOp]| {
             let o = run(rt, max, cand);
             let m = canon_model(&model.ask(&o.model_line));
             canon_impl(&o.impl_line, &m) != m
@@ -472,8 +476,40 @@ pub fn check_case(rt: &tokio::runtime::Runtime, model: &mut Model, report: &mut 
         }));
     }
     if !out.failures.is_empty() {
-        let shrunk = csv_common::ddmin(ops, &mut |cand: &[IOp]| !run(rt, max, cand).failures.is_empty());
+        let prefix: Vec<IOp> = match super::failing_op(&out.failures) {
+            Some(at) => ops.iter().take(at + 1).cloned().collect(),
+            None => ops.to_vec(),
+        };
+        let shrunk = limits.shrink(ops, prefix, &mut |cand: &[IOp]| !run(rt, max, cand).failures.is_empty());
         let so = run(rt, max, &shrunk);
-        report.oracle_violation("", &so.failures.join("; "), serde_json::json!({"case": format!("ING {}", enc_iops(max, &shrunk)), "original": format!("ING {}", key)}));
+        let (what, case) = if so.failures.is_empty() { (out.failures.join("; "), key.clone()) } else { (so.failures.join("; "), enc_iops(max, &shrunk)) };
+        report.oracle_violation("", &what, serde_json::json!({"case": format!("ING {}", case), "original": format!("ING {}", key)}));
     }
+    if differs || !out.failures.is_empty() {
+        limits.finding(report);
+    }
+    limits.case_done(report);
+}
+
+/// the operations up to the one that produced output token `tok` (skipped
+/// operations produce no token, so the history is replayed to count)
+fn prefix_for_token(ops: &[IOp], tok: usize) -> Vec<IOp> {
+    let mut up = false;
+    let mut produced = 0usize;
+    let mut out = Vec::new();
+    for o in ops {
+        out.push(o.clone());
+        let executed = match o {
+            IOp::RS => !up,
+            _ => up,
+        };
+        if executed {
+            produced += 3;
+            up = matches!(o, IOp::RS | IOp::W(_));
+            if produced > tok {
+                break;
+            }
+        }
+    }
+    out
 }
